@@ -248,13 +248,13 @@ S(id="S.fmt", props=["C15", "C12"], mode="S", static="fmt", spec="", harness="",
 
 # ---------------- C11: description intermediate form ----------------
 DESC = dict(spec="desc.spec.c", dfcc=False, instr=["--drop-unused-functions"])
-S(id="D.codes", props=["C11"], harness="h_codes", mode="B", unwind_all={"quick": 102, "thorough": 102}, rec_unwind=5, timeout=1200, params={"quick": {"NR": 3}, "thorough": {"NR": 4}},
+S(id="D.codes", props=["C11"], harness="h_codes", mode="B", unwind_all={"quick": 5, "thorough": 6}, unwind_over={"strncpy.": 101, "verif_error_va.": 64}, rec_unwind=5, timeout=1200, params={"quick": {"NR": 3}, "thorough": {"NR": 4}},
   bound="<= 3 (thorough 4) records over a two-name universe, codes -1 (implicit) or 0..300", functions=["set_sgrammar (tail, rule R4)", "sterm_name_cmp", "sterm_num_cmp"],
   what="one record per name is left; implicit codes are >= 256, distinct and increase in order of first appearance; a name declared repeatedly with the same explicit code keeps it",
   assumes=["A2: qsort model (insertion sort); the region starts with code == 256 (static fact from R4: initialiser 256, no assignment before the region)"], **DESC)
-S(id="D.codes.conflict", props=["C11"], harness="h_codes_conflict", mode="B", unwind_all=102, rec_unwind=5, params={"quick": {"NR": 3}}, timeout=600,
+S(id="D.codes.conflict", props=["C11"], harness="h_codes_conflict", mode="B", unwind_all=5, unwind_over={"strncpy.": 101, "verif_error_va.": 64}, rec_unwind=5, params={"quick": {"NR": 3}}, timeout=600,
   bound="two records", functions=["set_sgrammar (tail, rule R4)"], what="same name with two different explicit codes is reported as YAEP_REPEATED_TERM_CODE", **DESC)
-S(id="UB.msg.arg", props=["C12", "C11"], harness="h_codes_longname", mode="B", unwind_all=125, rec_unwind=5, params={"quick": {"NR": 3}}, timeout=1500,
+S(id="UB.msg.arg", props=["C12", "C11"], harness="h_codes_longname", mode="B", unwind_all=5, unwind_over={"strncpy.": 101, "strcmp.": 123, "check_cstr.": 125, "verif_error_va.": 64}, rec_unwind=5, params={"quick": {"NR": 3}}, timeout=1500,
   bound="symbol names of 1..120 characters (the local buffer holds 100)", functions=["set_sgrammar (tail, rule R4)"],
   what="the name copied into the local buffer for the 'described repeatedly with different code' message is NUL-terminated however long the name is", **DESC)
 S(id="D.replay.term", props=["C11"], harness="h_sread_terminal", mode="L", canaries=2, functions=["sread_terminal"], what="record i delivered unchanged, NULL after the last", **DESC)
@@ -274,12 +274,13 @@ S(id="RG.prefix", props=["C10", "C14", "C15"], spec="rg.spec.c", harness="h_rg_p
        "when new by name and code, exactly as delivered; on normal end no defect was delivered",
   assumes=["A7: symb_find_by_repr / symb_find_by_code answer 'found' iff the name / code was added before (C19 HT.* + symb_add_term, composed on paper)",
            "R5: the region is cut from yaep_read_grammar on every run; the rest of the function (rule intake, checks) is not covered by this set"])
-S(id="T.free.flat", props=["C13"], harness="h_free_tree_flat", functions=["yaep_free_tree", "free_tree_reduce", "free_tree_sweep"],
-  bound="one abstract node with <= 3 children drawn from 2 TERM and 1 NIL node, any sharing; names of 1..2 characters",
-  what="every block reachable from the root goes to parse_free exactly once and nothing else does; termcb is called exactly once per TERM node", **dict(TREE_B, unwind_all=5, rec_unwind=4, timeout=900))
-S(id="T.free.nested", props=["C13"], harness="h_free_tree_nested", canaries=2, functions=["yaep_free_tree", "free_tree_reduce", "free_tree_sweep"],
-  bound="ALT root over two abstract nodes sharing one name block, or an abstract node nested in an abstract node; one child each from 2 TERM and 1 NIL node",
-  what="as T.free.flat, for nesting, alternatives and a name block shared by two nodes", **dict(TREE_B, unwind_all=5, rec_unwind=5, timeout=900))
+TF = dict(TREE_B, unwind_all=11, rec_unwind=4, timeout=1500, functions=["yaep_free_tree", "free_tree_reduce", "free_tree_sweep"])
+S(id="T.free.flat", props=["C13"], harness="h_free_tree_flat", bound="one abstract node with <= 3 children drawn from 2 TERM and 1 NIL node, any sharing; names of 1..2 characters",
+  what="every block reachable from the root goes to parse_free exactly once and nothing else does; termcb is called exactly once per TERM node", **TF)
+S(id="T.free.alt", props=["C13"], harness="h_free_tree_alt", bound="ALT root over two abstract nodes that share one name block, one child each from 2 TERM and 1 NIL node",
+  what="as T.free.flat, for alternatives and a name block shared by two nodes", **TF)
+S(id="T.free.nest", props=["C13"], harness="h_free_tree_nest", bound="abstract node nested as first child of an abstract node; children from 2 TERM and 1 NIL node",
+  what="as T.free.flat, for nesting", **TF)
 
 # ---------------- C12: terminal sets ----------------
 for nm, fn, lp in [("up", "term_set_up", 0), ("test", "term_set_test", 0), ("clear", "term_set_clear", 1), ("copy", "term_set_copy", 1), ("or", "term_set_or", 1)]:
@@ -298,7 +299,7 @@ S(id="G.ctx", props=["C14", "C12"], spec="parse.spec.c", harness="h_build_start_
 
 # sets still being brought up: not part of any tier until they are green on the unchanged tree (run with --sets <id>)
 for _s in SETS:
-    if _s["id"] in ("TOK.vec", "D.codes", "D.codes.conflict", "UB.msg.arg", "T.free.flat", "T.free.nested"):
+    if _s["id"] in ("TOK.vec", "T.free.flat", "T.free.alt", "T.free.nest"):
         _s["disabled"] = "work in progress"
 S(id="T.anode_reset", props=["C13", "C14"], spec="parse.spec.c", harness="h_parse_init", mode="B", dfcc=True,
   replace=["sit_init/sit_init_c", "set_init/set_init_c", "core_symb_vect_init/core_symb_vect_init_c"], unwind_all=5,
@@ -317,3 +318,15 @@ S(id="HT.abs.empty", props=["C19"], harness="h_abs_empty", what="emptying an arb
 for _s in SETS:
     if _s["id"].startswith("HT.abs."):
         _s["disabled"] = "work in progress"
+
+# ---------------- C10: flags and verdicts (bounded) ----------------
+FLG = dict(spec="flags.spec.c", mode="B", dfcc=False, instr=["--drop-unused-functions"], params={"quick": {"NN": 2, "NRU": 2}, "thorough": {"NN": 2, "NRU": 3}},
+           unwind_all={"quick": 6, "thorough": 7}, rec_unwind=2, timeout=3000, mem=40, tier="thorough",
+           bound="axiom + 2 nonterminals + 1 terminal, <= 2 (thorough 3) arbitrary rules with right-hand sides of length <= 2")
+S(id="RG.flags", props=["C10"], harness="h_flags", functions=["set_empty_access_derives", "set_loop_p", "symb_get", "nonterm_get"],
+  what="empty_p / derivation_p / access_p equal the least fixpoints of nullable / productive / reachable, loop_p <=> the nonterminal can derive itself", **FLG)
+for _s in SETS:
+    if _s["id"] == "RG.flags":
+        _s["disabled"] = "work in progress"
+S(id="S.codes256", props=["C11"], mode="S", static="codes256", spec="", harness="", bound="syntactic", functions=["set_sgrammar"],
+  what="implicit code numbering starts from the value 256 that D.codes assumes (initialiser, no assignment before the region)")
